@@ -379,7 +379,7 @@ func genPlanC09(t *rapid.T) Plan {
 			}
 			p.Ops = append(p.Ops, op)
 		case k < 15:
-			p.Ops = append(p.Ops, Op{K: rapid.SampledFrom([]string{"disconnect", "disconnect-close", "close", "close", "garbage"}).Draw(t, "end"), C: c})
+			p.Ops = append(p.Ops, Op{K: rapid.SampledFrom([]string{"disconnect", "disconnect-close", "requests-disconnect-close", "close", "close", "garbage"}).Draw(t, "end"), C: c})
 		case k < 17:
 			p.Ops = append(p.Ops, Op{K: "pub", C: c, Topic: rapid.SampledFrom([]string{"a", "w/a"}).Draw(t, "pt"), PQ: byte(rapid.IntRange(0, 2).Draw(t, "pq")), Size: rapid.IntRange(1, 30).Draw(t, "ps")})
 		case k < 19:
